@@ -691,6 +691,9 @@ func (d *cborDecDriver[T]) decTagBigFloatAsFloat(decimal bool) (f float64) {
 		// (was: exponent truncated to int8 - 10^256 read as 10^0 - and table lookups that
 		// panicked with an index out of range, reported as unexpected EOF, beyond 10^+-22)
 		f = decimalFraction64(mant, exp)
+		if math.IsInf(f, 0) { // finite m*(10**e) beyond the float64 range (as for bignums and bigfloats)
+			halt.errorStr("cbor decimal fraction overflows float64")
+		}
 	} else { // m*(2**e)
 		// f = float64(mant) * math.Pow(2, exp)
 		// clamp: big.Float adds exponents in int64 and int(exp) may wrap; +-2^20 is already +-Inf / +-0
